@@ -103,6 +103,14 @@ impl Prop for C01 {
             "columns={columns} {round}: chunks reassemble to {text:?}, source() is {got:?}"
           ));
         }
+        // "the string returned by source()" of this very object, asked after the stream (and after whatever the
+        // stream or map() left behind in it: sorted replacement order, decoded text, caches)
+        let again = lib_or_known!(spec, "source()", obj.source().to_string());
+        if again != text {
+          return Err(format!(
+            "columns={columns} {round}: source() asked on the same object after the stream returns {again:?}, the chunks reassembled to {text:?}"
+          ));
+        }
       }
     }
     let mut info = CaseInfo::nt(reslices(spec));
